@@ -1,7 +1,12 @@
 //verif:pkg libs/p2p/conn
 package conn
 
-import "bytes"
+import (
+	"bytes"
+	"time"
+
+	flow "github.com/lianxiangcloud/linkchain/libs/flowrate"
+)
 
 // C18 — every multiplexed channel delivers whole messages, intact and in the order they were sent,
 // however the channels' packets interleave and wherever messages are cut into packets.
@@ -31,6 +36,10 @@ func H_C18_channels_deliver_whole_messages_in_order() {
 	_ = maxLen
 	sA, rA := c18Channel(1, payload, 8), c18Channel(1, payload, 8)
 	sB, rB := c18Channel(2, payload, 8), c18Channel(2, payload, 8)
+	c18Exchange(sA, rA, sB, rB, lensA, lensB, payload)
+}
+
+func c18Exchange(sA, rA, sB, rB *Channel, lensA, lensB [2]int, payload int) {
 	var sentA, sentB [2][]byte
 	for i := 0; i < 2; i++ {
 		sentA[i] = verifNondetBytes(lensA[i])
@@ -104,3 +113,33 @@ func H_C18_oversized_message_is_an_error() {
 	verifAssert(delivered == (n <= capacity), "delivered-iff-within-capacity")
 	verifAssert(failed == (n > capacity), "oversized-is-an-error")
 }
+
+// The receiving channels are the ones the REAL constructor of a connection builds
+// (NewMConnectionWithConfig -> newChannel: that is where the reassembly buffers come from), with a
+// reassembly buffer smaller than the messages, so that the buffers have to grow while the other
+// channel has a half-received message: each channel still delivers exactly what was sent on it.
+// flowrate monitors (clocks, floats) and the packet-size probe (reflective encoder) are cut.
+//verif:stub github.com/lianxiangcloud/linkchain/libs/flowrate.New => stub_c18_flownew
+//verif:stub (*github.com/lianxiangcloud/linkchain/libs/p2p/conn.MConnection).maxPacketMsgSize => stub_c18_maxpacket
+//verif:opt unwind=24 budget_s=900 split=12
+func H_C18_channels_of_one_connection_do_not_disturb_each_other() {
+	payload := 2
+	descs := []*ChannelDescriptor{
+		{ID: 1, Priority: 1, SendQueueCapacity: 4, RecvMessageCapacity: 8, RecvBufferCapacity: 2},
+		{ID: 2, Priority: 1, SendQueueCapacity: 4, RecvMessageCapacity: 8, RecvBufferCapacity: 2},
+	}
+	cfg := DefaultMConnConfig()
+	cfg.MaxPacketMsgPayloadSize = payload
+	mc := NewMConnectionWithConfig(nil, descs, nil, nil, cfg)
+	rA, rB := mc.channelsIdx[1], mc.channelsIdx[2]
+	verifAssert(rA != nil && rB != nil && len(mc.channels) == 2, "connection-has-its-channels")
+	sA, sB := c18Channel(1, payload, 8), c18Channel(2, payload, 8)
+	selA := verifCase(6)
+	lensA := [2]int{3 + selA/2, 1 + selA%2*3}
+	selB := verifCase(2)
+	lensB := [2]int{3 + selB, 2}
+	c18Exchange(sA, rA, sB, rB, lensA, lensB, payload)
+}
+
+func stub_c18_flownew(sampleRate, windowSize time.Duration) *flow.Monitor { return &flow.Monitor{} }
+func stub_c18_maxpacket(c *MConnection) int                              { return 64 }
